@@ -1,7 +1,8 @@
 (* C13 -- reflog expiry removes exactly the expired entries.  Statements only. *)
 From Coq Require Import List NArith Arith Bool Sorted.
-From RT Require Import Model.Bytes Model.Records Model.Merge Model.Overlay Model.Compact
-  Proofs.MergeProofs Proofs.CompactProofs Proofs.ExpiryProofs.
+From RT Require Import Proofs.BlockProofs Proofs.TableProofs.
+From RT Require Import Model.Bytes Model.Result Model.Records Model.Block Model.Merge Model.Overlay Model.Compact
+  Model.Writer Model.StackSeq Proofs.MergeProofs Proofs.CompactProofs Proofs.ExpiryProofs Proofs.StackSeqProofs.
 Import ListNotations.
 Local Open Scope N_scope.
 
@@ -23,6 +24,21 @@ Theorem C13_keep_rule : forall e l b, l_body l = Some b ->
   (e_min_index e = 0 \/ e_min_index e <= l_index l).
 Proof. exact keep_log_rule. Qed.
 Print Assumptions C13_keep_rule.
+
+(* byte level: CompactAll(expiry) as the Go code composes it (merge, filter, write the bytes,
+   read them back; Model/StackSeq.v, tied to the real Stack on every run) *)
+Theorem C13_bytes_exact : forall deflate inflate,
+  zlib_ok deflate inflate ->
+  (forall x n, (n < length (deflate x))%nat -> inflate (firstn n (deflate x)) = ITrunc) ->
+  (forall x, N.of_nat (length x) < 16777216 -> N.of_nat (length (deflate x)) < 1073741824) ->
+  forall cfg e st st' s,
+  cfg_ok cfg -> stack_wf cfg st -> compact_all_size_ok deflate cfg (Some e) st ->
+  stack_compact_all deflate inflate cfg (Some e) st = (st', s) ->
+  stack_wf cfg st' /\ s <> SRejected /\ (s = SErr -> st' = st) /\
+  (s = SOk -> stack_refs (tables st') = stack_refs (tables st) /\
+              stack_logs (tables st') = filter (keep_log (Some e)) (stack_logs (tables st))).
+Proof. exact stack_expire_spec. Qed.
+Print Assumptions C13_bytes_exact.
 
 Example C13_ex :
   let lg n i tm := {| l_name := n; l_index := i; l_body := Some {| lb_old := None; lb_new := None; lb_name := []; lb_email := []; lb_time := tm; lb_tz := 0; lb_msg := [] |} |} in
